@@ -5,7 +5,7 @@
 import os, sys
 sys.path.insert(0, os.path.join(os.environ.get("AIOFTP_REPO", "/repo"), "src"))
 OBLIGATION = 'aioftp.server:Server.mlst#SEQ::PathConditions.__call__.<locals>.wrapper/backend:exists:authorised'
-MODEL = {'rest!28': 'A', 'logged_done!14': False, 'u_cur_base!8': 'OPath!val!1', 'real!12': 'OPath!val!0', 'u_cur_home!9': 'Unit("!2!")', 'block_size!0': 1, 'virtual!13': 'Unit("!1!")', 'restart_offset!10': 0, 'cwd!10': 'Unit("!3!")', 'logged_present!13': True, 'user_done!12': True, 'current_directory_present!15': True, 'current_directory_done!16': True, 'user_present!11': True}
+MODEL = {'auth_ok!27': False, 'block_size!0': 1, 'u_cur_home!21': 'Unit("!2!")', 'restart_offset!10': 0, 'rest!28': '.', 'logged_done!14': False, 'virtual!25': 'Unit("!3!")', 'u_cur_base!20': 'OPath!val!1', 'cwd!22': 'Unit("!4!")', 'real!24': 'OPath!val!0', 'logged_present!13': True, 'user_done!12': True, 'current_directory_present!15': True, 'current_directory_done!16': True, 'user_present!11': True}
 SOLVER_NOTE = ''
 
 print("obligation", OBLIGATION, "failed; no concrete failing input could be constructed automatically")
